@@ -73,6 +73,9 @@ func checkC08(c *Ctx) {
 	// cleanPath is path.Clean
 	checkFuncMapEntry(c, "C08.R1.registration", gen, "cleanPath", "path.Clean", "handlers are registered under another normalisation than the one the runtime router applies to route patterns (path.Join/Clean)")
 
+	// the router is built from the flattened document (path-item $refs resolved): loads.Embedded(orig, flat)
+	checkEmbeddedOrder(c, "C08.R1.routed-document", ev, gen)
+
 	checkOperationIdentity(c, gen)
 	checkOperationDedup(c, gen)
 	checkCollisionDetection(c, gen)
@@ -261,7 +264,7 @@ func checkOperationDedup(c *Ctx, gen *packages.Package) {
 // different source, and records it otherwise; write returns that error.
 func checkCollisionDetection(c *Ctx, gen *packages.Package) {
 	rule := "C08.R4.collision-detection"
-	c.Rule(rule, "GenOpts.write refuses to generate a target file that was already generated from a differently named spec object", 3)
+	c.Rule(rule, "GenOpts.write refuses to generate a target file that was already generated from a differently named spec object", 4)
 	info := gen.TypesInfo
 	fd := load.FuncDecl(gen, "GenOpts.write")
 	if fd == nil {
@@ -316,6 +319,17 @@ func checkCollisionDetection(c *Ctx, gen *packages.Package) {
 	}
 	c.Ok(rule, "generator.GenOpts.write › collision check", c.posOf(gen, callPos), "calls "+load.FuncName(detector))
 	c.Check(returned, rule, "generator.GenOpts.write › collision error is returned", c.posOf(gen, callPos), "if err := …; err != nil { return err }", "the error of the collision check is not returned: generation goes on and overwrites the file")
+	// no success return before the check (e.g. the skip_exists shortcut): a second object skipped
+	// because the first one's file exists would never be reported
+	early := ""
+	ast.Inspect(fd.Body, func(n ast.Node) bool {
+		if rs, ok := n.(*ast.ReturnStmt); ok && rs.Pos() < callPos && len(rs.Results) == 1 && goan.IsIdent(rs.Results[0], "nil") {
+			early = c.posOf(gen, rs.Pos())
+		}
+		return true
+	})
+	c.Check(early == "", rule, "generator.GenOpts.write › no success return precedes the collision check", c.posOf(gen, callPos), "the check runs for every object that resolves to a target",
+		"write() can return nil at "+early+" before the collision check: an object whose target already exists (skip_exists) is dropped without the collision being reported")
 	c.Check(firstWrite != token.NoPos && callPos < firstWrite, rule, "generator.GenOpts.write › collision check precedes every file-system write", c.posOf(gen, callPos), "top-level statement before os.MkdirAll / os.WriteFile", "the collision check comes after the file was written")
 }
 
